@@ -993,3 +993,86 @@ def check_enumerators(ctx, rep, f_dfa, f_nfa, f_rx, rule=RULE + '.M24'):
         rep.undecided(rule, cur, 'def ' + cur.name, 'outside the evaluator: {}'.format(e))
         return
     rep.holds(rule, f_dfa, 'def ' + f_dfa.name + ' / ' + f_nfa.name + ' / ' + f_rx.name, 'on {} runs (the model DFAs, NFAs and expressions, n = 0..4 resp. 0..3) each enumerator returns exactly the accepted / denoted words of length at most n'.format(cases))
+
+
+# ---- PDA acceptance on model PDAs with bounded epsilon closures -------------------------------------------------------------------
+
+def _pda(Q, Sigma, Gamma, trans, q0, F, eps='_'):
+    delta = {}
+    for (p, a, u, q, v) in trans:
+        delta.setdefault((p, a, u), set()).add((q, v))
+    return Obj('PDA', Q=set(Q), Sigma=set(Sigma), Gamma=set(Gamma), delta=delta, q0=q0, F=set(F), epsilon=eps)
+
+
+_PDAS = {
+    'a^n b^n': (['q0', 'q1', 'q2', 'q3'], ['a', 'b'], ['A', '$'], [('q0', '_', '_', 'q1', '$'), ('q1', 'a', '_', 'q1', 'A'), ('q1', '_', '_', 'q2', '_'), ('q2', 'b', 'A', 'q2', '_'), ('q2', '_', '$', 'q3', '_')], 'q0', ['q3']),
+    'replace Z by A, then pop': (['q0', 'q1', 'q2', 'q3'], ['a', 'b'], ['A', 'Z'], [('q0', '_', '_', 'q1', 'Z'), ('q1', 'a', 'Z', 'q2', 'A'), ('q2', 'b', 'A', 'q3', '_')], 'q0', ['q3']),
+    'replace X by Y, b needs X': (['p1', 'p2', 'p3', 'p0'], ['a', 'b'], ['X', 'Y'], [('p0', '_', '_', 'p1', 'X'), ('p1', 'a', 'X', 'p2', 'Y'), ('p2', 'b', 'X', 'p3', '_')], 'p0', ['p3']),
+    'push and pop on the same letter': (['q0', 'q1', 'q2'], ['a'], ['A'], [('q0', 'a', '_', 'q1', 'A'), ('q1', 'a', '_', 'q1', 'A'), ('q1', 'a', 'A', 'q2', '_'), ('q2', 'a', 'A', 'q2', '_')], 'q0', ['q2']),
+    'final initial state, stack-neutral loop': (['s'], ['a'], ['A'], [('s', 'a', '_', 's', '_')], 's', ['s']),
+    'palindromes with a centre mark': (['l', 'r'], ['a', 'b', 'c'], ['A', 'B'], [('l', 'a', '_', 'l', 'A'), ('l', 'b', '_', 'l', 'B'), ('l', 'c', '_', 'r', '_'), ('r', 'a', 'A', 'r', '_'), ('r', 'b', 'B', 'r', '_')], 'l', ['r']),
+}
+
+
+def _pda_accepts_ref(P, w):
+    f = P._f
+    E = f['epsilon']
+
+    def succ(q, st, a):
+        out = set()
+        for (p, a1, u), Q1 in f['delta'].items():
+            if p != q or a1 != a:
+                continue
+            for (q1, v) in Q1:
+                if u == E or (st and st[-1] == u):
+                    base = st if u == E else st[:-1]
+                    out.add((q1, base + ((v,) if v != E else ())))
+        return out
+
+    def close(S):
+        S = set(S)
+        todo = list(S)
+        while todo:
+            q, st = todo.pop()
+            for c in succ(q, st, E):
+                if c not in S and len(c[1]) <= len(w) + 3:
+                    S.add(c)
+                    todo.append(c)
+        return S
+    S = close({(f['q0'], ())})
+    for a in w:
+        S = close({c for (q, st) in S for c in succ(q, st, a)})
+    return any(q in f['F'] for q, _ in S)
+
+
+def check_pda_acceptance(ctx, rep, f, rule=RULE + '.M25'):
+    """pda_accepts_word on model PDAs whose epsilon closures are small (far below any limit) and all words up to length 4 (3 for
+    three letters): True exactly when an accepting computation exists (breadth-first search over configurations in the
+    analyser).  The models push, pop, replace a symbol by another one, have a pushing and a popping move on the same letter in
+    the same state, stack-neutral moves, and the accepted palindromes need the stack contents, not only its height."""
+    from .small_models import _pda_classes
+    cases = 0
+    try:
+        for name, spec in _PDAS.items():
+            sigma = sorted(spec[1])
+            for n in range((4 if len(sigma) <= 2 else 3) + 1):
+                for tup in itertools.product(sigma, repeat=n):
+                    w = ''.join(tup)
+                    for order in ('asc', 'desc'):
+                        P = _pda(*spec)
+                        it = _interp(ctx, order, classes=_pda_classes(), max_steps=400000)
+                        it.constants = {'GambaTools.pda_epsilon_closure_max_iterations': 1000}
+                        ok, got = _run(rule, rep, f, lambda: it.call(f, [P, w]), 'on the PDA "{}" and the word {!r}'.format(name, w))
+                        if not ok:
+                            return
+                        if not isinstance(got, bool):
+                            raise Unsupported('the answer is not a boolean')
+                        cases += 1
+                        want = _pda_accepts_ref(P, w)
+                        if got != want:
+                            rep.violates(rule, f, 'def ' + f.name, 'on the PDA "{}" the word {!r} is {} although {} accepting computation exists'.format(name, w, 'accepted' if got else 'rejected', 'an' if want else 'no'))
+                            return
+    except (Unsupported, RecursionError) as e:
+        rep.undecided(rule, f, 'def ' + f.name, 'outside the evaluator: {}'.format(e))
+        return
+    rep.holds(rule, f, 'def ' + f.name, 'on {} evaluations (six model PDAs with pushing, popping, replacing and stack-neutral moves, a push and a pop on the same letter, a final initial state; all words up to length 4 resp. 3; two iteration orders of sets) the answer is True exactly when an accepting computation exists'.format(cases))
